@@ -10,12 +10,14 @@ import (
 	"encoding/json"
 	"flag"
 	"fmt"
+	"io"
 	"os"
 	"os/exec"
 	"runtime"
 	"sort"
 	"strings"
 	"sync"
+	"syscall"
 	"time"
 
 	"github.com/woodsbury/jmespath"
@@ -222,6 +224,9 @@ func runDriver(driver string, ops []Op, n int) (map[int]string, error) {
 	return res, nil
 }
 
+// runImplAll runs the implementation on every op in n worker processes (this binary re-executed as `jmx worker`), so
+// that a fatal runtime error (out of memory, stack overflow: not recoverable in-process) is attributed to the op that
+// caused it instead of killing the harness: the worker is restarted and the op's outcome is `crash`.
 func runImplAll(ops []Op, n int) []string {
 	out := make([]string, len(ops))
 	var wg sync.WaitGroup
@@ -229,13 +234,122 @@ func runImplAll(ops []Op, n int) []string {
 		wg.Add(1)
 		go func(sh int) {
 			defer wg.Done()
+			var w *worker
+			defer func() {
+				if w != nil {
+					w.kill()
+				}
+			}()
 			for i := sh; i < len(ops); i += n {
-				out[i] = runImpl(ops[i])
+				if ops[i].Risky {
+					out[i] = runChild(ops[i])
+					continue
+				}
+				if w == nil {
+					w = startWorker()
+					if w == nil {
+						out[i] = runImpl(ops[i]) // could not start a worker: in-process
+						continue
+					}
+				}
+				res, alive := w.run(ops[i])
+				out[i] = res
+				if !alive {
+					w.kill()
+					w = nil
+				}
 			}
 		}(sh)
 	}
 	wg.Wait()
 	return out
+}
+
+type worker struct {
+	cmd   *exec.Cmd
+	stdin io.WriteCloser
+	rd    *bufio.Reader
+	lines chan string
+}
+
+func startWorker() *worker {
+	cmd := exec.Command(os.Args[0], "worker")
+	cmd.Env = append(os.Environ(), "GOMEMLIMIT=3GiB")
+	stdin, err := cmd.StdinPipe()
+	if err != nil {
+		return nil
+	}
+	stdout, err := cmd.StdoutPipe()
+	if err != nil {
+		return nil
+	}
+	if err := cmd.Start(); err != nil {
+		return nil
+	}
+	w := &worker{cmd: cmd, stdin: stdin, rd: bufio.NewReaderSize(stdout, 1<<20), lines: make(chan string, 1)}
+	go func() {
+		for {
+			line, err := w.rd.ReadString('\n')
+			if err != nil {
+				close(w.lines)
+				return
+			}
+			w.lines <- strings.TrimRight(line, "\n")
+		}
+	}()
+	return w
+}
+
+func (w *worker) kill() {
+	_ = w.stdin.Close()
+	_ = w.cmd.Process.Kill()
+	go w.cmd.Wait()
+}
+
+// run sends one op; the second result is false when the worker must be replaced (it died, or it timed out and still
+// has the runaway evaluation inside)
+func (w *worker) run(op Op) (string, bool) {
+	if _, err := io.WriteString(w.stdin, op.Kind+"\t"+hex.EncodeToString(op.Expr)+"\t"+op.Data+"\n"); err != nil {
+		return "crash (worker gone before the op was sent)", false
+	}
+	select {
+	case line, ok := <-w.lines:
+		if !ok {
+			return "crash (fatal runtime error in the implementation: the process evaluating this op died)", false
+		}
+		return line, line != "timeout"
+	case <-time.After(opTimeout + 20*time.Second):
+		return "timeout", false
+	}
+}
+
+// workerMain: one op per line on stdin (kind, hex expression, xjson), one outcome per line on stdout
+func workerMain() {
+	// a runaway allocation should fail fast instead of exhausting the machine
+	var lim syscall.Rlimit
+	lim.Cur, lim.Max = 12<<30, 12<<30
+	_ = syscall.Setrlimit(syscall.RLIMIT_AS, &lim)
+	rd := bufio.NewReaderSize(os.Stdin, 1<<20)
+	wr := bufio.NewWriter(os.Stdout)
+	for {
+		line, err := rd.ReadString('\n')
+		if line == "" && err != nil {
+			return
+		}
+		parts := strings.SplitN(strings.TrimRight(line, "\n"), "\t", 3)
+		if len(parts) != 3 {
+			fmt.Fprintln(wr, "bad-op line")
+			wr.Flush()
+			continue
+		}
+		expr, _ := hex.DecodeString(parts[1])
+		res := runImpl(Op{Kind: parts[0], Expr: expr, Data: parts[2]})
+		fmt.Fprintln(wr, strings.ReplaceAll(res, "\n", " "))
+		wr.Flush()
+		if res == "timeout" {
+			os.Exit(0)
+		}
+	}
 }
 
 func trivialOutcome(s string) bool {
@@ -280,6 +394,8 @@ func main() {
 		expr, _ := hex.DecodeString(line())
 		op := Op{Kind: kind, Expr: expr, Data: line()}
 		fmt.Println(runImpl(op))
+	case "worker":
+		workerMain()
 	case "check":
 		check(os.Args[2:])
 	case "replay":
